@@ -20,6 +20,7 @@ const (
 var (
 	errInvalidAddress = errors.New("soc: invalid address")
 	errWrongChunkSize = errors.New("soc: chunk length is less than minimum")
+	errInvalidRecID   = errors.New("soc: non-canonical signature recovery byte")
 )
 
 // ID is a SOC identifier
@@ -182,6 +183,12 @@ func hash(values ...[]byte) ([]byte, error) {
 
 // recoverAddress returns the ethereum address of the owner of a SOC.
 func recoverAddress(signature, digest []byte) ([]byte, error) {
+	// btcec.RecoverCompact also accepts the recovery bytes 31..34 ("compressed key" flag set),
+	// which recover the same key as 27..30: without this check every signed SOC had a second
+	// valid serialisation differing in that one byte.
+	if len(signature) == SignatureSize && signature[SignatureSize-1] > 30 {
+		return nil, errInvalidRecID
+	}
 	recoveredPublicKey, err := crypto.Recover(signature, digest)
 	if err != nil {
 		return nil, err
